@@ -806,6 +806,31 @@ def check_pipeline(spec: dict) -> dict:
                     feature.is_iterative()) != (module.is_complete(), module.is_starter_module(),
                                                 module.is_termination_module(), module.is_iterative()):
                 raise Violation("pipeline_feature_flags", {"module": _describe(module)})
+    # read-only accessors of the module features leave them as they are (domains in gene order, parents, saved form)
+    def feature_state(feature) -> list:
+        bio = feature.to_biopython()
+        return [[dom.domain_id for dom in feature.domains], list(feature.parent_cds_names), str(feature.location),
+                [[sorted((key, list(val) if val is not None else None) for key, val in part.qualifiers.items()),
+                  str(part.location)] for part in bio]]
+    for feature in features:
+        before = feature_state(feature)
+        with code_under_test("feature_accessor_total"):
+            for parent in feature.parent_cds_names:
+                inside = feature.get_parent_protein_location(parent)
+                own = [dom.protein_location for dom in feature.domains if dom.locus_tag == parent]
+                if int(inside.start) != min(int(loc.start) for loc in own) \
+                        or not int(inside.start) < int(inside.end) <= max(int(loc.end) for loc in own):
+                    raise Violation("feature_parent_location", {"domains": before[0], "parent": parent,
+                                                                "got": str(inside)})
+            if not feature.is_multigene_module():
+                _ = feature.protein_location
+            _ = (feature.is_complete(), feature.is_starter_module(), feature.is_final_module(),
+                 feature.is_iterative(), feature.module_type, feature.monomers,
+                 feature.get_substrate_monomer_pairs(), str(feature), repr(feature))
+            _ = feature.to_biopython()
+        after = feature_state(feature)
+        if after != before:
+            raise Violation("feature_accessor_mutates", {"before": before[:3], "after": after[:3]})
     # the reloaded results give the same module features in the fresh record
     try:
         again.add_to_record(fresh)
@@ -846,8 +871,38 @@ def check_pipeline(spec: dict) -> dict:
                                                "qualifiers": {k: [v, rebuilt[0].qualifiers.get(k)]
                                                               for k, v in bio[0].qualifiers.items()
                                                               if rebuilt[0].qualifiers.get(k) != v}})
+    # ... and the GenBank text form of the whole record: written, parsed, rebuilt
+    import io
+    from Bio import SeqIO
+    from antismash.common.secmet import Record
+    try:
+        handle = io.StringIO()
+        SeqIO.write([record.to_biopython()], handle, "genbank")
+        parsed = list(SeqIO.parse(io.StringIO(handle.getvalue()), "genbank"))
+        reread = Record.from_biopython(parsed[0], taxon="bacteria")
+        reread_features = list(reread.get_modules())
+    except Exception as err:  # pylint: disable=broad-except
+        raise Violation("genbank_reload_refused", {"exception": type(err).__name__, "message": str(err)[:300]}) from err
+    # (the order of the module features within the record is not judged: a reread record sorts them by location)
+    original = sorted((feature_summary(f) for f in features), key=json.dumps)
+    reread_summary = sorted((feature_summary(f) for f in reread_features), key=json.dumps)
+    if reread_summary != original:
+        raise Violation("genbank_reload_differs", {"original": original, "reread": reread_summary})
     classes = [f"genes_{len(genes)}", "multi_gene_module" if multi else "no_multi_gene_module",
                "strands_" + "".join("+" if s == 1 else "-" for s in spec["strands"])]
+    for feature in features:
+        classes.append("feature_complete" if feature.is_complete() else "feature_incomplete")
+        for flag, label in ((feature.is_starter_module(), "starter"), (feature.is_final_module(), "final"),
+                            (feature.is_iterative(), "iterative")):
+            if flag:
+                classes.append(f"feature_{label}")
+        if feature.is_multigene_module():
+            by_parent = {}
+            for dom in feature.domains:
+                by_parent.setdefault(dom.locus_tag, []).append(int(dom.protein_location.start))
+            first, second = (by_parent[name] for name in feature.parent_cds_names[:2])
+            if max(first) > min(second):
+                classes.append("multi_gene_feature_head_domain_starts_after_tail_domain")
     if any(not gene["doms"] and not gene.get("motifs") for gene in genes):
         classes.append("gene_without_hits")
     if complete_tails:
